@@ -79,7 +79,7 @@ MANIFEST = {
         "design_ref": "DESIGN.md 3/C07, docs/variant.md",
     }
 }
-PROPS = ["Nstd.Variant.Props", "Nstd.Variant.PropsGen", "Nstd.Variant.PropsGenOrder"]
+PROPS = ["Nstd.Variant.Props", "Nstd.Variant.PropsGen", "Nstd.Variant.PropsGenOrder", "Nstd.Variant.PropsAtof"]
 LEAN_TARGETS = PROPS + ["drv_variant"]
 DRIVER = "drv_variant"
 NV = 6
